@@ -216,7 +216,8 @@ func (s *Scanner) scanComment() string {
 		goto exit
 	}
 	// # - style comment, as default
-	s.next()
+	// (the initial '#' is already consumed; s.ch is the first character of the
+	// comment text, which may be the terminating newline itself)
 	for s.ch != '\n' && s.ch >= 0 {
 		if s.ch == '\r' {
 			numCR++
